@@ -51,7 +51,7 @@ func widen(b []byte) []int32 {
 }
 
 func checkC17(c *Ctx) {
-	c.rule = "byte strings = characters of width 2/3/4 straddling every 4096-byte block boundary at every split offset, boundary sizes, BOM variants, legitimate U+FFFD, every single-byte corruption (overwrite 0x80/0xC0/0xF8/0xFF, delete, truncate) of small valid programs, overlong/surrogate encodings, GBK text; each through FileStream.ReadAll, ByteStream.ReadAll, chunked Read(n) for n in 1..17 and random n, and end-to-end LoadFile+Execute of marker programs. Oracle: unicode/utf8 (Valid + []rune). distinct_nontrivial = distinct (case family, validity, reader mode) x byte-level shape hashes with at least one multi-byte character or corruption"
+	c.rule = "byte strings = characters of width 2/3/4 straddling every 4096-byte block boundary at every split offset, boundary sizes, BOM variants, legitimate U+FFFD, every single-byte corruption (overwrite 0x80/0xC0/0xF8/0xFF, delete, truncate) of small valid programs, overlong/surrogate encodings, GBK text; each through FileStream.ReadAll, ByteStream.ReadAll, chunked Read(n) for n in 1..17 and random n, and end-to-end LoadFile+Execute of marker programs, among them valid files with 22 unusual characters (U+0000, controls, U+2028, U+FEFF, noncharacters, …) in a literal / a comment / between statements / at a line start / at the end: rejected as a whole or run completely. Oracle: unicode/utf8 (Valid + []rune). distinct_nontrivial = distinct (case family, validity, reader mode) x byte-level shape hashes with at least one multi-byte character or corruption"
 	c.assumptions = []string{"Go's unicode/utf8 is the reference decoder", "a leading BOM is judged only for FileStream (source files); ByteStream may keep or drop it"}
 	rng := c.Rand("c17")
 	cases := []c17Case{}
@@ -250,6 +250,37 @@ func checkC17(c *Ctx) {
 		d = []byte(strings.Replace(string(base), "文", "\xCE\xC4", 1))
 		e2es = append(e2es, e2e{fmt.Sprintf("gbk/%d", lines), d, lines})
 	}
+	// valid files holding unusual (but valid) characters in a literal, in a comment, or between
+	// statements: the file may be rejected as a whole (nothing runs), or it runs completely
+	specials := []rune{0x0000, 0x0001, 0x0008, 0x000B, 0x000C, 0x001A, 0x001B, 0x007F, 0x0085, 0x00A0, 0x00AD, 0x200B, 0x2028, 0x2029, 0x202E, 0xFEFF, 0xFFFD, 0xFFFE, 0xFFFF, 0xE000, 0x1F600, 0x10FFFF}
+	special := map[string]rune{}
+	for _, sp := range specials {
+		for _, place := range []string{"literal", "comment", "between", "line-start", "file-end"} {
+			var sb strings.Builder
+			for i := 1; i <= 6; i++ {
+				switch {
+				case i == 3 && place == "literal":
+					sb.WriteString(fmt.Sprintf("（显示：“M%d甲%c乙”）\n", i, sp))
+					continue
+				case i == 3 && place == "comment":
+					sb.WriteString(fmt.Sprintf("注：说明 %c 说明\n", sp))
+				case i == 3 && place == "between":
+					sb.WriteString(fmt.Sprintf("（显示：“M%d文”） %c\n", i, sp))
+					continue
+				case i == 3 && place == "line-start":
+					sb.WriteString(fmt.Sprintf("%c（显示：“M%d文”）\n", sp, i))
+					continue
+				}
+				sb.WriteString(fmt.Sprintf("（显示：“M%d文”）\n", i))
+			}
+			if place == "file-end" {
+				sb.WriteRune(sp)
+			}
+			name := fmt.Sprintf("special/U+%04X/%s", sp, place)
+			e2es = append(e2es, e2e{name, []byte(sb.String()), 6})
+			special[name] = sp
+		}
+	}
 	ereqs := make([]Req, len(e2es))
 	for i, e := range e2es {
 		ereqs[i] = Req{Op: "exec", Main: "main.zn", Files: []File{{Path: "main.zn", Data: widen(e.data)}}, EvalBudget: 100000}
@@ -262,6 +293,17 @@ func checkC17(c *Ctx) {
 		shown := strings.Count(resp.Display, "M")
 		key := "e2e:" + strings.SplitN(e.name, "/", 2)[0] + ":" + e.name
 		rp := map[string]interface{}{"req": req, "case": e.name}
+		if sp, ok := special[e.name]; ok && valid {
+			switch {
+			case resp.Kind == "error" && shown == 0:
+				c.Count("special_rejected_as_a_whole", 1)
+			case resp.Kind == "value" && shown == e.markers && (!strings.HasSuffix(e.name, "/literal") || strings.ContainsRune(resp.Display, sp)):
+				c.Count("special_ran_completely", 1)
+			default:
+				c.Violation(key, fmt.Sprintf("valid UTF-8 file with U+%04X (%s): outcome %s, %d of %d marker lines displayed - neither rejected as a whole nor run completely and unaltered\ndisplay: %q", sp, e.name, resp.Kind, shown, e.markers, clip(resp.Display, 200)), rp)
+			}
+			return
+		}
 		if valid {
 			if resp.Kind != "value" || shown != e.markers {
 				c.Violation(key, fmt.Sprintf("valid file %s (%d marker lines): outcome %s, %d markers displayed", e.name, e.markers, resp.Kind, shown), rp)
